@@ -370,9 +370,13 @@ Fixpoint taccs (h : list (lockc * mode)) (acts : list tact) : list (field * bool
   | _ :: r => taccs h r
   end.
 
-(* two accesses are protected when they hold a common lock class, at least one of them exclusively *)
-Definition protectedb (h1 h2 : list (lockc * mode)) : bool :=
-  existsb (fun x => existsb (fun y => lockc_eqb (fst x) (fst y) && (is_W (snd x) || is_W (snd y))) h2) h1.
+(* two accesses to field f are protected when they hold a common lock class, at least one of them
+   exclusively, and that class denotes the SAME lock for both: a singleton lock, or the row lock when f is a
+   field of that row (a row lock says nothing about session-wide fields: two threads may hold different rows) *)
+Definition protectedb (f : field) (h1 h2 : list (lockc * mode)) : bool :=
+  existsb (fun x => existsb (fun y =>
+     lockc_eqb (fst x) (fst y) && (is_W (snd x) || is_W (snd y))
+     && (negb (per_row_lock (fst x)) || per_row_field f)) h2) h1.
 
 Definition conflictb (a b : field * bool * list (lockc * mode)) : bool :=
   field_eqb (fst (fst a)) (fst (fst b)) && (snd (fst a) || snd (fst b)).
@@ -382,7 +386,7 @@ Definition racy_fields (t1 t2 : tmpl) : list field :=
   let a1 := taccs [] (flat t1) in
   let a2 := taccs [] (flat t2) in
   flat_map (fun a => flat_map (fun b =>
-     if conflictb a b && negb (protectedb (snd a) (snd b)) then [fst (fst a)] else []) a2) a1.
+     if conflictb a b && negb (protectedb (fst (fst a)) (snd a) (snd b)) then [fst (fst a)] else []) a2) a1.
 
 (* send / close sites *)
 Definition sends (t : tmpl) (c : chan) : bool :=
